@@ -118,8 +118,13 @@ func EncodePrivateKey(key any) ([]byte, error) {
 		blockType string
 	)
 
+	// crypto/ed25519 hands out (and crypto/x509 expects) ed25519.PrivateKey values, not pointers
+	if k, ok := key.(*ed25519.PrivateKey); ok && k != nil {
+		key = *k
+	}
+
 	switch key := key.(type) {
-	case *ecdsa.PrivateKey, *ed25519.PrivateKey:
+	case *ecdsa.PrivateKey, ed25519.PrivateKey:
 		keyBytes, err = x509.MarshalPKCS8PrivateKey(key)
 		if err != nil {
 			return nil, err
@@ -136,6 +141,10 @@ func EncodePrivateKey(key any) ([]byte, error) {
 
 // EncodeX509 will encode a single *x509.Certificate into PEM format.
 func EncodeX509(cert *x509.Certificate) ([]byte, error) {
+	if cert == nil {
+		return nil, errors.New("certificate is nil")
+	}
+
 	caPem := bytes.NewBuffer([]byte{})
 	err := pem.Encode(caPem, &pem.Block{Type: "CERTIFICATE", Bytes: cert.Raw})
 	if err != nil {
